@@ -7,6 +7,13 @@ package main
 //
 //   get <want> <script>    GetBlock(point of fixture block <want>; "x" = a point no fixture has)
 //   range <script>         GetBlockRange(points of blocks 1..2) with BlockFunc/BatchDoneFunc callbacks
+//   seq <script1> <want> <script2>     GetBlockRange answered by script1 (N, or S,B..,D), then — after it
+//                          has completed — GetBlock(<want>) answered by script2: the busy lock must be free again
+//   conc <k> <script1> <want> <script2>   GetBlockRange answered by the batch script1 = S,B..,D; after its
+//                          first k messages GetBlock(<want>) is started from another goroutine, then the
+//                          rest of the batch follows, then script2 answers GetBlock's own request: the running
+//                          batch must stay in callback mode
+//                          out: r1: ret=.. cb=.. done=.. | r2: <get result>
 //
 // script = comma separated server messages:
 //   S StartBatch   N NoBlocks   D BatchDone   B<i> Block carrying fixture block i (0..7)
@@ -35,7 +42,7 @@ import (
 )
 
 func init() {
-	register(&Prop{ID: "C23", Gen: genC23, Run: runC23, Timeout: 20 * time.Second})
+	register(&Prop{ID: "C23", Gen: genC23, Run: runC23, Timeout: 120 * time.Second})
 }
 
 const c23Id = blockfetch.ProtocolId
@@ -44,6 +51,28 @@ const c23Resp = blockfetch.ProtocolId | 0x8000
 func genC23(r *Rand, n int, tier string, emit func(string)) {
 	blk := func() int { return r.Intn(8) }
 	for i := 0; i < n; i++ {
+		if r.Chance(1, 6) {
+			// two calls on one connection
+			want := blk()
+			nb := r.Intn(4)
+			ev := []string{"S"}
+			for j := 0; j < nb; j++ {
+				ev = append(ev, fmt.Sprintf("B%d", blk()))
+			}
+			ev = append(ev, "D")
+			sc2 := Pick(r, fmt.Sprintf("S,B%d,D", want), fmt.Sprintf("S,B%d,D", want), "N", "S,D",
+				fmt.Sprintf("S,B%d,D", (want+1)%8), fmt.Sprintf("S,B%d", want))
+			if r.Chance(1, 2) {
+				sc1 := strings.Join(ev, ",")
+				if r.Chance(1, 3) {
+					sc1 = "N"
+				}
+				emit(fmt.Sprintf("seq %s %d %s", sc1, want, sc2))
+			} else {
+				emit(fmt.Sprintf("conc %d %s %d %s", 1+r.Intn(len(ev)-1), strings.Join(ev, ","), want, sc2))
+			}
+			continue
+		}
 		isGet := r.Chance(3, 5)
 		want := blk()
 		var ev []string
@@ -144,6 +173,9 @@ func c23Msg(ev string, blocks []g5Block) ([]byte, bool) {
 
 func runC23(op string) string {
 	f := strings.Fields(op)
+	if len(f) > 0 && (f[0] == "seq" || f[0] == "conc") {
+		return runC23Two(f)
+	}
 	blocks, err := g5Blocks()
 	if err != nil {
 		return "fixtures:" + err.Error()
@@ -260,11 +292,11 @@ func runC23(op string) string {
 	// as soon as that has happened), short when nothing more can happen
 	settle := 30 * time.Millisecond
 	if !isGet {
-		settle = 2 * time.Second
+		settle = 20 * time.Second
 	}
 	for _, e := range evs {
 		if e == "D" || e == "N" {
-			settle = 2 * time.Second
+			settle = 20 * time.Second
 		}
 	}
 	if isGet {
@@ -286,6 +318,9 @@ func runC23(op string) string {
 			}
 			select {
 			case <-progress:
+			case <-cli.DoneChan():
+				// the protocol has failed: nothing more will be delivered
+				break wait
 			case <-deadline:
 				break wait
 			}
@@ -293,6 +328,12 @@ func runC23(op string) string {
 		select {
 		case r := <-resCh:
 			got = &r
+		case <-cli.DoneChan():
+			select {
+			case r := <-resCh:
+				got = &r
+			case <-time.After(5 * time.Second):
+			}
 		case <-time.After(settle):
 		}
 	}
@@ -302,7 +343,7 @@ func runC23(op string) string {
 		select {
 		case r := <-resCh:
 			got = &r
-		case <-time.After(1500 * time.Millisecond):
+		case <-time.After(10 * time.Second):
 			if isGet {
 				return "HANG"
 			}
@@ -320,7 +361,7 @@ func runC23(op string) string {
 	stuck := ""
 	select {
 	case <-cli.DoneChan():
-	case <-time.After(1500 * time.Millisecond):
+	case <-time.After(10 * time.Second):
 		stuck = " STUCK"
 	}
 	mu.Lock()
@@ -334,4 +375,199 @@ func runC23(op string) string {
 		cbs = strings.Join(cb, ",")
 	}
 	return fmt.Sprintf("ret=%s cb=%s done=%d%s", ret, cbs, done, stuck)
+}
+
+// runC23Two: two calls on one connection (see the header).
+func runC23Two(f []string) string {
+	blocks, err := g5Blocks()
+	if err != nil {
+		return "fixtures:" + err.Error()
+	}
+	k := 0
+	var sc1, wantS, sc2 string
+	switch {
+	case f[0] == "seq" && len(f) == 4:
+		sc1, wantS, sc2 = f[1], f[2], f[3]
+	case f[0] == "conc" && len(f) == 5:
+		v, err := strconv.Atoi(f[1])
+		if err != nil {
+			return "bad-op"
+		}
+		k, sc1, wantS, sc2 = v, f[2], f[3], f[4]
+	default:
+		return "bad-op"
+	}
+	ev1 := strings.Split(sc1, ",")
+	ev2 := strings.Split(sc2, ",")
+	// script1 must be a complete answer: N, or S,B..,D
+	complete := sc1 == "N" || (len(ev1) >= 2 && ev1[0] == "S" && ev1[len(ev1)-1] == "D")
+	for _, e := range ev1[1:max(1, len(ev1)-1)] {
+		if !strings.HasPrefix(e, "B") || e == "Bx" {
+			complete = false
+		}
+	}
+	if !complete || (f[0] == "conc" && (sc1 == "N" || k < 1 || k >= len(ev1))) {
+		return "bad-op"
+	}
+	var msgs1, msgs2 [][]byte
+	for _, e := range ev1 {
+		m, ok := c23Msg(e, blocks)
+		if !ok {
+			return "bad-op"
+		}
+		msgs1 = append(msgs1, m)
+	}
+	for _, e := range ev2 {
+		m, ok := c23Msg(e, blocks)
+		if !ok {
+			return "bad-op"
+		}
+		msgs2 = append(msgs2, m)
+	}
+	wi, err := strconv.Atoi(wantS)
+	if err != nil || wi < 0 || wi >= len(blocks) {
+		return "bad-op"
+	}
+	point := pcommon.NewPoint(blocks[wi].Slot, blocks[wi].Hash)
+
+	l := newG5Link()
+	defer l.close()
+	var mu sync.Mutex
+	cb := []string{}
+	done := 0
+	progress := make(chan struct{}, 64)
+	note := func() {
+		select {
+		case progress <- struct{}{}:
+		default:
+		}
+	}
+	cfg, _ := blockfetch.NewConfig(
+		blockfetch.WithBlockFunc(func(_ blockfetch.CallbackContext, typ uint, b ledger.Block) error {
+			mu.Lock()
+			cb = append(cb, strconv.Itoa(g5BlockIndex(b.Hash().Bytes())))
+			mu.Unlock()
+			note()
+			return nil
+		}),
+		blockfetch.WithBatchDoneFunc(func(blockfetch.CallbackContext) error {
+			mu.Lock()
+			done++
+			mu.Unlock()
+			note()
+			return nil
+		}),
+	)
+	cli := blockfetch.NewClient(l.opts(protocol.ProtocolModeNodeToNode), &cfg)
+	cli.Start()
+	rangeRes := make(chan error, 1)
+	go func() {
+		rangeRes <- cli.GetBlockRange(pcommon.NewPoint(blocks[1].Slot, blocks[1].Hash), pcommon.NewPoint(blocks[2].Slot, blocks[2].Hash))
+	}()
+	if _, err := l.peer.recv(c23Id, 20*time.Second); err != nil {
+		return "norequest"
+	}
+	type gres struct {
+		b   ledger.Block
+		err error
+	}
+	getRes := make(chan gres, 1)
+	startGet := func() {
+		go func() {
+			b, err := cli.GetBlock(point)
+			getRes <- gres{b, err}
+		}()
+	}
+	nB := 0
+	early := ""
+	for i, m := range msgs1 {
+		if f[0] == "conc" && i == k {
+			startGet()
+			// GetBlock must wait for the running batch: its request must not appear yet
+			// (grace period only — a correct client never sends it here)
+			if _, err := l.peer.recv(c23Id, 30*time.Millisecond); err == nil {
+				early = " EARLY-REQUEST"
+			}
+		}
+		_ = l.peer.send(c23Resp, m)
+		if strings.HasPrefix(ev1[i], "B") {
+			nB++
+		}
+	}
+	var r1err error
+	select {
+	case r1err = <-rangeRes:
+	case <-time.After(20 * time.Second):
+		return "r1: HANG"
+	}
+	// everything script1 causes has to be delivered before the second phase is judged
+	deadline := time.After(20 * time.Second)
+waitCb:
+	for {
+		mu.Lock()
+		enough := len(cb) >= nB && (sc1 == "N" || done > 0)
+		mu.Unlock()
+		if enough {
+			break
+		}
+		select {
+		case <-progress:
+		case <-getRes: // (cannot happen before its request is answered; keeps the loop honest)
+		case <-cli.DoneChan():
+			break waitCb
+		case <-deadline:
+			break waitCb
+		}
+	}
+	if f[0] == "seq" {
+		startGet()
+	}
+	r2 := ""
+	if early == "" {
+		if _, err := l.peer.recv(c23Id, 20*time.Second); err != nil {
+			r2 = "norequest2"
+		}
+	}
+	if r2 == "" {
+		for _, m := range msgs2 {
+			_ = l.peer.send(c23Resp, m)
+		}
+		settle := 30 * time.Millisecond
+		for _, e := range ev2 {
+			if e == "D" || e == "N" {
+				settle = 20 * time.Second
+			}
+		}
+		var g *gres
+		select {
+		case x := <-getRes:
+			g = &x
+		case <-time.After(settle):
+		}
+		l.peer.close()
+		if g == nil {
+			select {
+			case x := <-getRes:
+				g = &x
+			case <-time.After(10 * time.Second):
+			}
+		}
+		switch {
+		case g == nil:
+			r2 = "HANG"
+		case g.err != nil:
+			r2 = c23ErrClass(g.err)
+		case g.b == nil:
+			r2 = "ok:nil"
+		default:
+			r2 = fmt.Sprintf("ok:%d", g5BlockIndex(g.b.Hash().Bytes()))
+		}
+	}
+	mu.Lock()
+	defer mu.Unlock()
+	cbs := "-"
+	if len(cb) > 0 {
+		cbs = strings.Join(cb, ",")
+	}
+	return fmt.Sprintf("r1: ret=%s cb=%s done=%d%s | r2: %s", c23ErrClass(r1err), cbs, done, early, r2)
 }
